@@ -5,7 +5,8 @@
    of remove_duplicate_nodes, morphed/oriented/trace are covered by correspondence / oracle (vlib/props/c18.py). *)
 From Coq Require Import List Arith Bool ZArith Sorted.
 Import ListNotations.
-Require Import Model.C18_Surgery Proofs.C18_SurgeryProofs Gen.C18Gen Dyn.C18_Tie.
+Require Import Model.C18_Surgery Proofs.C18_SurgeryProofs Proofs.C18_TilingProofs Gen.C18Gen Dyn.C18_Tie.
+Require Proofs.C14_QuadProofs.   (* group I: the diagonal split of a strictly convex quadrilateral tiles it *)
 
 (* reix_spec.  For EVERY index matrix ix (any shape, any numbers) and every point table p:
    (1) the vertex in slot (r, c) of the new connectivity has the coordinates of the vertex in slot (r, c) of ix;
@@ -101,7 +102,8 @@ Theorem C18_split_index_maps :
 Proof. split; [exact split_rows_spec|]. split; [exact split_subdomain_spec | exact quad_sub_offsets_are_children]. Qed.
 Print Assumptions C18_split_index_maps.
 
-(* split_spec, measure (ring identities on the REGENERATED templates): for every quadrilateral (all coordinates)
+(* split_spec, measure (ring identities on the REGENERATED templates; tiling of strictly convex quadrilaterals by the default
+   split: C18_quad_split_tiles below): for every quadrilateral (all coordinates)
    the signed areas of the two children add up to the parent's shoelace area; in style 'x' (coordinates scaled by 4
    so that the centre node is integral) the four children, each taken with the fixed orientation it has in the
    unit square, add up to the parent's area *)
@@ -140,14 +142,91 @@ Proof.
 Qed.
 Print Assumptions C18_tet_split_measure.
 
-(* ... and the children fit together: every triangular face of a child is shared by exactly two children or lies in
-   a boundary plane of the reference cell and belongs to one child (finite certificate on the regenerated data;
-   together with equal volumes adding up to the parent's this excludes overlapping or missing children) *)
-Theorem C18_tet_split_conforming :
-  conforming_split gen_refhex_p cube_planes gen_hex_split = true /\
-  conforming_split gen_refwedge_p prism_planes gen_wedge_split = true.
-Proof. exact tet_splits_conforming. Qed.
-Print Assumptions C18_tet_split_conforming.
+(* TILING of the reference cells (replaces the former finite face-sharing certificate).  Points are homogeneous integer
+   quadruples (X, Y, Z, W), W > 0, standing for the rational point (X/W, Y/W, Z/W) — i.e. ALL rational points; `bary` are the
+   W-scaled barycentric coordinates (explicit integer affine forms, by Cramer on the regenerated tables; they reproduce the
+   point and are unique).  (1) every point of the closed unit cube has all four coordinates >= 0 in at least one of the six
+   tetrahedra of MeshHex1.to_meshtet; (2) a point with all coordinates > 0 in one tetrahedron does not lie in any other (not
+   even on its boundary); (3) every tetrahedron lies in the cube. *)
+Theorem C18_hex_split_tiles_unit_cube :
+  (forall X Y Z W : Z, (0 < W -> 0 <= X <= W -> 0 <= Y <= W -> 0 <= Z <= W ->
+     Exists (fun T => all_nonneg (bary gen_refhex_p T (X, Y, Z, W))) gen_hex_split)%Z) /\
+  (forall i j q, i < 6 -> j < 6 -> i <> j ->
+     all_pos (bary gen_refhex_p (nth i gen_hex_split []) q) -> all_nonneg (bary gen_refhex_p (nth j gen_hex_split []) q) -> False) /\
+  (forall T, In T gen_hex_split -> forall X Y Z W : Z,
+     all_nonneg (bary gen_refhex_p T (X, Y, Z, W)) -> (0 <= X <= W /\ 0 <= Y <= W /\ 0 <= Z <= W /\ 0 <= W)%Z) /\
+  (forall T, In T gen_hex_split -> forall X Y Z W : Z,
+     comb gen_refhex_p T (bary gen_refhex_p T (X, Y, Z, W)) = (X, Y, Z, W)) /\ length gen_hex_split = 6.
+Proof.
+  destruct tet_split_literals as [-> [-> _]].
+  split; [exact hex_split_covers_unit_cube|]. split; [exact hex_split_disjoint_interiors|].
+  split; [exact hex_split_inside_unit_cube|]. split; [exact hex_bary_correct | reflexivity].
+Qed.
+Print Assumptions C18_hex_split_tiles_unit_cube.
+
+(* the same for the three tetrahedra of MeshWedge1.to_meshtet on the reference prism x, y >= 0, x + y <= 1, 0 <= z <= 1 *)
+Theorem C18_wedge_split_tiles_prism :
+  (forall X Y Z W : Z, (0 < W -> 0 <= X -> 0 <= Y -> X + Y <= W -> 0 <= Z <= W ->
+     Exists (fun T => all_nonneg (bary gen_refwedge_p T (X, Y, Z, W))) gen_wedge_split)%Z) /\
+  (forall i j q, i < 3 -> j < 3 -> i <> j ->
+     all_pos (bary gen_refwedge_p (nth i gen_wedge_split []) q) -> all_nonneg (bary gen_refwedge_p (nth j gen_wedge_split []) q) -> False) /\
+  (forall T, In T gen_wedge_split -> forall X Y Z W : Z,
+     all_nonneg (bary gen_refwedge_p T (X, Y, Z, W)) -> (0 <= X /\ 0 <= Y /\ X + Y <= W /\ 0 <= Z <= W)%Z) /\
+  (forall T, In T gen_wedge_split -> forall X Y Z W : Z,
+     comb gen_refwedge_p T (bary gen_refwedge_p T (X, Y, Z, W)) = (X, Y, Z, W)) /\ length gen_wedge_split = 3.
+Proof.
+  destruct tet_split_literals as [_ [_ [-> [-> _]]]].
+  split; [exact wedge_split_covers_prism|]. split; [exact wedge_split_disjoint_interiors|].
+  split; [exact wedge_split_inside_prism|]. split; [exact wedge_bary_correct | reflexivity].
+Qed.
+Print Assumptions C18_wedge_split_tiles_prism.
+
+(* lift to affine images (barycentric coordinates are affine invariants): for EVERY parallelepiped o + A [0,1]^3 and every
+   affine prism, each of its points (the image of a point of the reference cell) is a convex combination — coefficients >= 0
+   summing to W — of the vertices of some image tetrahedron; and if det A <> 0, no point is a strictly positive combination
+   in one image tetrahedron and a nonnegative one in another *)
+Theorem C18_tet_splits_tile_affine_cells :
+  (forall o c1 c2 c3 : pt3,
+     (forall X Y Z W : Z, (0 < W -> 0 <= X <= W -> 0 <= Y <= W -> 0 <= Z <= W ->
+        Exists (fun T => exists lam, all_nonneg lam /\ nth 0 lam 0 + nth 1 lam 0 + nth 2 lam 0 + nth 3 lam 0 = W /\
+                          comb (map (affine3 o c1 c2 c3) gen_refhex_p) T lam = himage o c1 c2 c3 (X, Y, Z, W)) gen_hex_split)%Z) /\
+     (det3 c1 c2 c3 <> 0%Z -> forall i j l0 l1 l2 l3 m0 m1 m2 m3, i < 6 -> j < 6 -> i <> j ->
+        all_pos [l0; l1; l2; l3] -> all_nonneg [m0; m1; m2; m3] ->
+        comb (map (affine3 o c1 c2 c3) gen_refhex_p) (nth i gen_hex_split []) [l0; l1; l2; l3]
+        = comb (map (affine3 o c1 c2 c3) gen_refhex_p) (nth j gen_hex_split []) [m0; m1; m2; m3] -> False)) /\
+  (forall o c1 c2 c3 : pt3,
+     (forall X Y Z W : Z, (0 < W -> 0 <= X -> 0 <= Y -> X + Y <= W -> 0 <= Z <= W ->
+        Exists (fun T => exists lam, all_nonneg lam /\ nth 0 lam 0 + nth 1 lam 0 + nth 2 lam 0 + nth 3 lam 0 = W /\
+                          comb (map (affine3 o c1 c2 c3) gen_refwedge_p) T lam = himage o c1 c2 c3 (X, Y, Z, W)) gen_wedge_split)%Z) /\
+     (det3 c1 c2 c3 <> 0%Z -> forall i j l0 l1 l2 l3 m0 m1 m2 m3, i < 3 -> j < 3 -> i <> j ->
+        all_pos [l0; l1; l2; l3] -> all_nonneg [m0; m1; m2; m3] ->
+        comb (map (affine3 o c1 c2 c3) gen_refwedge_p) (nth i gen_wedge_split []) [l0; l1; l2; l3]
+        = comb (map (affine3 o c1 c2 c3) gen_refwedge_p) (nth j gen_wedge_split []) [m0; m1; m2; m3] -> False)).
+Proof.
+  destruct tet_split_literals as [-> [-> [-> [-> _]]]].
+  split; [exact hex_split_tiles_parallelepiped | exact wedge_split_tiles_affine_prism].
+Qed.
+Print Assumptions C18_tet_splits_tile_affine_cells.
+
+(* quadrilateral -> 2 triangles tiles every strictly convex quadrilateral (group I, Proofs.C14_QuadProofs.quad_split_tiles =
+   C14_quad_split_tiles): the regenerated templates are exactly the triangles [0,1,3] and [1,2,3] of that theorem; a point is in
+   the closed quadrilateral iff it is in one of the two triangles, and a point in both lies on the diagonal v1 v3 *)
+Theorem C18_quad_split_tiles :
+  gen_quad_split = [[0; 1; 3]; [1; 2; 3]] /\
+  forall x0 y0 x1 y1 x2 y2 x3 y3 s : QArith_base.Q, QArith_base.Qeq (QArith_base.Qmult s s) (QArith_base.inject_Z 1) ->
+    QArith_base.Qlt (QArith_base.inject_Z 0) (QArith_base.Qmult s (C14_QuadProofs.orient x0 y0 x1 y1 x2 y2)) ->
+    QArith_base.Qlt (QArith_base.inject_Z 0) (QArith_base.Qmult s (C14_QuadProofs.orient x0 y0 x1 y1 x3 y3)) ->
+    QArith_base.Qlt (QArith_base.inject_Z 0) (QArith_base.Qmult s (C14_QuadProofs.orient x0 y0 x2 y2 x3 y3)) ->
+    QArith_base.Qlt (QArith_base.inject_Z 0) (QArith_base.Qmult s (C14_QuadProofs.orient x1 y1 x2 y2 x3 y3)) ->
+    forall px py,
+      (C14_QuadProofs.in_quad x0 y0 x1 y1 x2 y2 x3 y3 s px py <->
+       C14_QuadProofs.in_T013 x0 y0 x1 y1 x3 y3 s px py \/ C14_QuadProofs.in_T123 x1 y1 x2 y2 x3 y3 s px py) /\
+      (C14_QuadProofs.in_T013 x0 y0 x1 y1 x3 y3 s px py -> C14_QuadProofs.in_T123 x1 y1 x2 y2 x3 y3 s px py ->
+       QArith_base.Qeq (C14_QuadProofs.orient x1 y1 x3 y3 px py) (QArith_base.inject_Z 0)).
+Proof.
+  split; [exact (proj2 (proj2 (proj2 (proj2 tet_split_literals))))|]. exact C14_QuadProofs.quad_split_tiles.
+Qed.
+Print Assumptions C18_quad_split_tiles.
 
 (* extrude_spec (model of MeshTri1 * MeshLine1, corresponded with the real operator): prism k + l*nt consists of
    triangle k in layer l (vertex v + l*nv) and the same triangle in layer l+1, for every number of layers *)
